@@ -141,6 +141,18 @@ func (d *deepHasher) walk(v reflect.Value) {
 
 // ---- read calls -------------------------------------------------------------------
 
+// userGate, when set, is called by the scanning reader between RECEIVING a key/value slice
+// from the library and COPYING it: a consumer may hold the slice until its own next call on
+// the same iterator, whatever other readers and iterators do meanwhile.  In gated runs it is
+// a scheduler gate like the library's verification points; in the stress runs it yields.
+var userGate func()
+
+func holdSlice() {
+	if g := userGate; g != nil {
+		g()
+	}
+}
+
 type readCall struct {
 	API string `json:"api"`
 	Q   string `json:"-"`
@@ -188,6 +200,7 @@ func doCall(c *TrieCase, st *trie.SlimTrie, rc readCall) (res string) {
 		ks := [][]int{}
 		n := 0
 		st.ScanFrom(rc.Q, true, true, func(k, v []byte) bool {
+			holdSlice()
 			ks = append(ks, bints(k), bytesOrNil(v))
 			n++
 			return n < rc.N
@@ -196,6 +209,7 @@ func doCall(c *TrieCase, st *trie.SlimTrie, rc readCall) (res string) {
 	case "ScanFromTo":
 		ks := [][]int{}
 		st.ScanFromTo(rc.Q, false, rc.Q2, true, false, func(k, v []byte) bool {
+			holdSlice()
 			ks = append(ks, bints(k))
 			return true
 		})
@@ -205,6 +219,7 @@ func doCall(c *TrieCase, st *trie.SlimTrie, rc readCall) (res string) {
 		ks := [][]int{}
 		for i := 0; i < rc.N; i++ {
 			k, v := nxt()
+			holdSlice()
 			ks = append(ks, bytesOrNil(k), bytesOrNil(v))
 		}
 		out = ks
@@ -268,7 +283,14 @@ func runGated(c *TrieCase, st *trie.SlimTrie, calls []readCall, sched []int, has
 		g.event <- "gate"
 		<-g.resume
 	}
-	defer func() { trie.VerifHook = nil }()
+	userGate = func() {
+		if g := current; g != nil {
+			g.sites = append(g.sites, "hold-slice")
+			g.event <- "gate"
+			<-g.resume
+		}
+	}
+	defer func() { trie.VerifHook = nil; userGate = nil }()
 	var wg sync.WaitGroup
 	for i := range calls {
 		g := &gateReader{id: i + 1, resume: make(chan bool), event: make(chan string)}
@@ -380,12 +402,15 @@ func readSchedules(path string) [][]int {
 
 func stressEv(c *TrieCase, st, twin *trie.SlimTrie, r *rand.Rand, nG int, dur time.Duration, scansOK bool) Ev {
 	trie.VerifHook = nil
+	userGate = nil
 	calls := pickCalls(r, c, 24, scansOK)
 	solo := make([]string, len(calls))
 	for i, rc := range calls {
 		solo[i] = doCall(c, twin, rc)
 	}
 	base := deepHash(st)
+	userGate = func() { runtime.Gosched() }
+	defer func() { userGate = nil }()
 	var wg sync.WaitGroup
 	var mu sync.Mutex
 	mismatch, total := 0, 0
